@@ -5,6 +5,7 @@ rc=0
 for p in $(python3 -c "import json;print(' '.join(c['property_id'] for c in json.load(open('MANIFEST.json'))['checks']))"); do
   s=$(date +%s)
   out=$(bin/govc check --property $p --tier ${1:-quick} 2>&1); r=$?
+  echo "$out" | grep "slow obligation" | cut -c1-200
   echo "$out" | grep -v "^note" | tail -3 | cut -c1-300
   echo "   -> $p exit=$r $(( $(date +%s) - s ))s"
   [ $r -ne 0 ] && rc=1
